@@ -4,15 +4,20 @@ import common, fns, sweeps, crops
 from common import quiet
 
 PROP = 'C04'
-LEAN_MODULES = ['XyzProofs.Props.C04', 'XyzProofs.Refine.Batch', 'XyzProofs.Refine.Sow', 'XyzProofs.Props.C08Grow', 'XyzProofs.Refine.Progress']
+LEAN_MODULES = ['XyzProofs.Props.C04', 'XyzProofs.Refine.Batch', 'XyzProofs.Refine.Sow', 'XyzProofs.Props.C08Grow', 'XyzProofs.Refine.Progress',
+                'XyzProofs.Refine.Reaper', 'XyzProofs.Props.C09Reaper']
 THEOREMS = ['Crop.c04_batches_cover', 'Crop.opSow_fresh', 'Crop.c04_grow_correct', 'Crop.c04_stream_full', 'Crop.c04_reap_eq_direct', 'Crop.c04_grow_history',
             'Crop.c04_history_reap_eq_direct', 'Crop.c04_reload_irrelevant',
             'Refine.chooseBatch_refines', 'Refine.sower_refines',
             'Crop.runnerShuffle_eq_recorded', 'Refine.sowAttrs_combos_refines', 'Refine.sowAttrs_cases_refines',
-            'GrowSk.growOne_refines', 'GrowSk.c08_grow_write_last', 'Refine.cropGrowIds_spec', 'Refine.growMissingIds_spec']
+            'GrowSk.growOne_refines', 'GrowSk.c08_grow_write_last', 'Refine.cropGrowIds_spec', 'Refine.growMissingIds_spec',
+            # the Reaper translated from the source (anchors_reaper.py)
+            'Reaper.reaperFiles_eq', 'Reaper.reapStream_refines', 'Reaper.session_eq', 'Reaper.session_refines',
+            'Reaper.reaperStream_full', 'Reaper.reapCombos_reaper_args', 'Crop.c04_stream_full_src']
 ANCHORS = ['nbFromBs', 'capNb', 'bsOfNb', 'remOfNb', 'sowerGetsExtra', 'sowerFlush', 'isReady', 'cleanUpDefault',
            'chooseBatchSettings', 'sowerInit', 'sowerCall', 'sowerExit',
-           'sowCombosHead', 'sowCasesHead', 'sowCombosRunnerShuffle', 'sowCasesRunnerShuffle', 'growSk', 'cropGrowIds', 'growMissingIds']
+           'sowCombosHead', 'sowCasesHead', 'sowCombosRunnerShuffle', 'sowCasesRunnerShuffle', 'growSk', 'cropGrowIds', 'growMissingIds',
+           'reaperFiles', 'reaperLoad', 'reaperWaitToLoad', 'reaperLoadFn', 'reaperCall', 'reaperExit', 'reapCombosReaper']
 RULE = ("histories: construct (batchsize | num_batches | neither; shuffle False/True/int) -> sow_combos / sow_cases "
         "(shuffle also at sow time) -> a random partition+permutation of the batch ids over Crop.grow, grow(), "
         "grow(num_workers=2), grow_missing, with repeats -> reap; fresh Crop(name, parent_dir) objects inserted at random "
